@@ -6,6 +6,7 @@
 -/
 import LbfgsbVerif.Model.Basic
 import LbfgsbVerif.Model.SF
+import LbfgsbVerif.Model.Shell
 import Std.Data.HashMap
 
 open Lbfgsb
@@ -58,6 +59,17 @@ structure Tables where
   G : Std.HashMap String (Except String (Vec Float)) := {}
   /-- keyed by x ; value: f0, stencil points, values, gradient -/
   FD : Std.HashMap String (Float × List (Vec Float) × Vec Float) := {}
+  /-- keyed by x|g|number of points in the matrices snapshot -/
+  XBAR : Std.HashMap String (Vec Float) := {}
+  /-- keyed by x0|d|index of the call within the search: returned step and task -/
+  DC : Std.HashMap String (Float × Task) := {}
+  /-- keyed by nit of the state -/
+  CB : Std.HashMap Nat (Except String Bool) := {}
+  /-- keyed by x -/
+  UPD : Std.HashMap String (Except String (UpdOut Float)) := {}
+  SC : Except String Float := .error "UNDEF-SC"
+  FT : Except String Float := .error "UNDEF-FT"
+  GT : Except String Float := .error "UNDEF-GT"
 
 def Tables.user (t : Tables) : SFUser Float String where
   F p := match t.F[keyV p]? with
@@ -76,9 +88,52 @@ def Tables.user (t : Tables) : SFUser Float String where
 def parseRes (s : String) (p : String → Option β) : Option (Except String β) :=
   if s.startsWith "!" then some (.error (s.drop 1).toString) else (p s).map .ok
 
+instance : FloatLike Float where
+  sqrt := Float.sqrt
+  isFinite := Float.isFinite
+
+def matsLen : Mats Float → Nat
+  | none => 0
+  | some (X, _) => X.length
+
+def Tables.shellUser (t : Tables) : User Float String :=
+  { t.user with
+    callback := fun st => match t.CB[st.nit]? with
+      | some r => r
+      | none => .error s!"UNDEF-CB:{st.nit}"
+    update := fun i => match t.UPD[keyV i.x]? with
+      | some r => r
+      | none => .error s!"UNDEF-UPD:{showV i.x}"
+    scaler := fun _ _ => t.SC
+    ftargetFn := fun _ => t.FT
+    gtolFn := fun _ => t.GT }
+
+/-- DCSRCH oracle state: identity of the search (x0|d) and number of calls made so far -/
+def Tables.oracles (t : Tables) : Oracles Float (String × Nat) where
+  xbar x g m := match t.XBAR[s!"{keyV x}|{keyV g}|{matsLen m}"]? with
+    | some v => v
+    | none => x.map fun _ => nan
+  dcNew x0 d _ _ _ _ := (s!"{keyV x0}|{keyV d}", 0)
+  dcIter st _ _ _ _ := match t.DC[s!"{st.1}|{st.2}"]? with
+    | some (stp, task) => ((st.1, st.2 + 1), stp, task)
+    | none => ((st.1, st.2 + 1), nan, .error)
+
+structure CfgB where
+  x0 : Vec Float := []
+  lb : Vec Float := []
+  ub : Vec Float := []
+  mode : GradMode := .callable
+  ints : List Nat := [10, 50, 15000, 20]
+  flts : List Float := []
+  gtol : Thresh Float := .const 1e-5
+  ftarget : Option (Thresh Float) := none
+  flags : List Bool := [false, false, false]
+  ck : Option (Result Float) := none
+
 structure Ctx where
   tabs : Tables := {}
   sf : SF Float := SF.new .callable []
+  cfg : CfgB := {}
 
 def showOut (s : SF Float) : SFOut Float → String
   | .val f => s!"val {showF f} {s.nfev} {s.ngev}"
@@ -136,13 +191,118 @@ def handle (c : Ctx) (line : String) : Ctx × Option String :=
   | ["sf.log"] => (c, some s!"log {showLog c.sf.log}")
   | _ => (c, some "bad-op")
 
+def msgCode : Msg → Nat
+  | .start => 0 | .restartLnsrch => 1 | .abnormal => 2 | .pgtol => 3 | .ftol => 4
+  | .target => 5 | .iterLimit => 6 | .evalLimit => 7 | .userCallback => 8
+
+def msgOfCode : Nat → Msg
+  | 1 => .restartLnsrch | 2 => .abnormal | 3 => .pgtol | 4 => .ftol | 5 => .target
+  | 6 => .iterLimit | 7 => .evalLimit | 8 => .userCallback | _ => .start
+
+def taskCode : Task → String
+  | .start => "START" | .fg => "FG" | .conv => "CONV" | .warn => "WARN" | .error => "ERROR"
+
+def taskOf : String → Task
+  | "START" => .start | "FG" => .fg | "CONV" => .conv | "WARN" => .warn | _ => .error
+
+def showRes (r : Result Float) : String :=
+  s!"{showV r.x} {showF r.f} {showV r.jac} {r.nfev} {r.njev} {r.nit} {r.status} {msgCode r.msg} {if r.success then 1 else 0} {showVs r.sk} {showVs r.yk}"
+
+def parseResult : List String → Option (Result Float)
+  | [x, f, jac, nfev, njev, nit, status, msg, succ, sk, yk] => do
+    let x ← parseV x; let f ← parseF f; let jac ← parseV jac
+    let nfev ← nfev.toNat?; let njev ← njev.toNat?; let nit ← nit.toNat?
+    let status ← status.toNat?; let msg ← msg.toNat?
+    let sk ← parseVs sk; let yk ← parseVs yk
+    pure { x, f, jac, nfev, njev, nit, status, msg := msgOfCode msg, success := succ == "1", sk, yk }
+  | _ => none
+
+def showMats : Mats Float → String
+  | none => "none"
+  | some (X, G) => s!"{showVs X}|{showVs G}"
+
+def showOReq : OReq Float → String
+  | .xbar x g m => s!"oreq xbar {showV x} {showV g} {showMats m}"
+  | .dc stp f g task => s!"oreq dc {showF stp} {showF f} {showF g} {taskCode task}"
+
+def CfgB.toCfg (b : CfgB) : Option (Cfg Float) :=
+  match b.ints, b.flts, b.flags with
+  | [maxcor, maxiter, maxfun, maxls], [ftol, maxStep, ftolLS, gtolLS, xtolLS, epsSY],
+    [hasCallback, hasUpdate, hasScaler] =>
+    some { x0 := b.x0, lb := b.lb, ub := b.ub, mode := b.mode, maxcor, maxiter, maxfun, maxls,
+           ftol, gtol := b.gtol, ftarget := b.ftarget, maxStep, ftolLS, gtolLS, xtolLS, epsSY,
+           hasCallback, hasUpdate, hasScaler, checkpoint := b.ck }
+  | _, _, _ => none
+
+def runShell (c : Ctx) : List String :=
+  match c.cfg.toCfg with
+  | none => ["bad-cfg"]
+  | some cfg =>
+    match minimize c.tabs.shellUser c.tabs.oracles cfg with
+    | .error e => [s!"err {e}"]
+    | .ok (r, s) =>
+      [s!"res {showRes r}", s!"log {showLog s.sf.log}"] ++
+      s.cbStates.map (fun st => s!"cb {showRes st}") ++
+      s.olog.map showOReq ++ ["end"]
+
+def parseThresh : List String → Option (Thresh Float × Option (Except String Float))
+  | ["const", a] => (parseF a).map fun a => (.const a, none)
+  | ["callable", a] => (parseRes a parseF).map fun r => (.callable, some r)
+  | _ => none
+
+def handleShell (c : Ctx) (toks : List String) : Option (Ctx × List String) :=
+  let setCfg (f : CfgB → CfgB) : Option (Ctx × List String) := some ({ c with cfg := f c.cfg }, [])
+  let setTab (f : Tables → Tables) : Option (Ctx × List String) := some ({ c with tabs := f c.tabs }, [])
+  match toks with
+  | ["cfg.x0", v] => (parseV v).bind fun v => setCfg fun b => { b with x0 := v }
+  | ["cfg.lb", v] => (parseV v).bind fun v => setCfg fun b => { b with lb := v }
+  | ["cfg.ub", v] => (parseV v).bind fun v => setCfg fun b => { b with ub := v }
+  | ["cfg.mode", "callable"] => setCfg fun b => { b with mode := .callable }
+  | ["cfg.mode", "fd"] => setCfg fun b => { b with mode := .fd }
+  | "cfg.int" :: rest => (rest.mapM String.toNat?).bind fun l => setCfg fun b => { b with ints := l }
+  | "cfg.flt" :: rest => (rest.mapM parseF).bind fun l => setCfg fun b => { b with flts := l }
+  | "cfg.flags" :: rest => setCfg fun b => { b with flags := rest.map (· == "1") }
+  | "cfg.gtol" :: rest => (parseThresh rest).bind fun (t, r) =>
+      some ({ c with cfg := { c.cfg with gtol := t },
+                     tabs := match r with | some r => { c.tabs with GT := r } | none => c.tabs }, [])
+  | ["cfg.ftarget", "none"] => setCfg fun b => { b with ftarget := none }
+  | "cfg.ftarget" :: rest => (parseThresh rest).bind fun (t, r) =>
+      some ({ c with cfg := { c.cfg with ftarget := some t },
+                     tabs := match r with | some r => { c.tabs with FT := r } | none => c.tabs }, [])
+  | "ck" :: rest => (parseResult rest).bind fun r => setCfg fun b => { b with ck := some r }
+  | ["XBAR", x, g, n, v] => do
+    let x ← parseV x; let g ← parseV g; let n ← n.toNat?; let v ← parseV v
+    setTab fun t => { t with XBAR := t.XBAR.insert s!"{keyV x}|{keyV g}|{n}" v }
+  | ["DC", x0, d, i, stp, task] => do
+    let x0 ← parseV x0; let d ← parseV d; let i ← i.toNat?; let stp ← parseF stp
+    setTab fun t => { t with DC := t.DC.insert s!"{keyV x0}|{keyV d}|{i}" (stp, taskOf task) }
+  | ["CB", nit, r] => do
+    let nit ← nit.toNat?
+    let r ← parseRes r (fun s => some (s == "1"))
+    setTab fun t => { t with CB := t.CB.insert nit r }
+  | ["UPD", x, r] => do
+    let x ← parseV x
+    if r.startsWith "!" then setTab fun t => { t with UPD := t.UPD.insert (keyV x) (.error (r.drop 1).toString) }
+    else none
+  | ["UPD", x, f0, f0Old, grad, G] => do
+    let x ← parseV x; let f0 ← parseF f0; let f0Old ← parseF f0Old
+    let grad ← parseV grad; let G ← parseVs G
+    setTab fun t => { t with UPD := t.UPD.insert (keyV x) (.ok { f0, f0Old, grad, G }) }
+  | ["SC", r] => (parseRes r parseF).bind fun r => setTab fun t => { t with SC := r }
+  | ["run"] => some (c, runShell c)
+  | _ => none
+
+def handleAll (c : Ctx) (line : String) : Ctx × List String :=
+  let toks := (line.trimAscii.toString.splitOn " ").filter (· ≠ "")
+  match handleShell c toks with
+  | some r => r
+  | none => let (c, o) := handle c line; (c, o.toList)
+
 partial def loop (h : IO.FS.Stream) (out : IO.FS.Stream) (c : Ctx) : IO Unit := do
   let line ← h.getLine
   if line.isEmpty then return ()
-  let (c', o) := handle c line
-  match o with
-  | some s => out.putStrLn s
-  | none => pure ()
+  let (c', o) := handleAll c line
+  for s in o do out.putStrLn s
   loop h out c'
 
 end Drv
